@@ -58,11 +58,15 @@ def post_fn(ctx, name):
     fn = "segment." + name
 
     def post(call):
-        if call.exc is not None:
-            return
+        raised = call.exc
         c = call.case()
         b = dict(zip(call.spec.params, c["args"]))
         b.update(c["kwargs"])
+        try:
+            riv = np.asarray(b["reference_intervals"], dtype=float)
+            np.asarray(b["estimated_intervals"], dtype=float)
+        except Exception:
+            return
         riv = np.asarray(b["reference_intervals"], dtype=float)
         eiv = np.asarray(b["estimated_intervals"], dtype=float)
         ctx.count("contract." + fn)
@@ -88,6 +92,21 @@ def post_fn(ctx, name):
             return
         if len(r) != len(e):
             ctx.count("skipped_frame_count_mismatch")
+            return
+        if riv[0, 0] != 0 or eiv[0, 0] != 0 or riv.max() != eiv.max() or \
+                len(b["reference_labels"]) != len(riv) or \
+                len(b["estimated_labels"]) != len(eiv) or np.any(riv < 0) or \
+                np.any(eiv < 0):
+            ctx.count("skipped_invalid_structure")
+            return
+        if raised is not None:
+            ctx.ev()
+            ctx.violation("C16/%s/raises/%s" % (fn, type(raised).__name__), "raises", fn,
+                          "%s raised %s on a valid pair of segmentations (%d frames, "
+                          "labels %dx%d) for which the definition is computable" % (
+                              fn, type(raised).__name__, len(r), len(set(r)), len(set(e))),
+                          c, witness={"fn": fn, "args": c["args"], "kwargs": c["kwargs"],
+                                      "exception": repr(raised)})
             return
         ctx.ev()
         beta = b.get("beta", 1.0)
